@@ -1,5 +1,6 @@
 import MlModel.Lemmas.Rates
 import MlModel.Lemmas.ConfusionTopK
+import MlModel.Lemmas.ConfusionTopKShard
 import MlModel.Lemmas.ConfusionSamplewise
 /-!
 # C07 (classification family) — metric values equal their textbook definitions
@@ -590,7 +591,7 @@ end counts
 /-! ## C. top-k -/
 
 section topk
-open MlModel.Agg.Confusion
+open MlModel.Agg.Confusion MlModel.Spec.Classification
 
 /-- **top-k** (`_apply_vocab_at_k` + `_topk_confusion_matrix`, multi-output rankings, explicit
 vocabulary): exactly one confusion matrix per `k ∈ k_list` with `1 ≤ k ≤ max k_list`, in increasing `k`,
@@ -615,6 +616,89 @@ example :
         { yTrue := .nested [[0], [1]], yPred := .nested [[1, 0], [1]] }
       = .ok { tp := .v [1, 2], tn := .v [3, 3], fp := .v [1, 1], fn := .v [1, 0] } := by
   rfl
+
+/-! ### top-k end to end: the accumulator's per-`k` counts are the textbook counts of
+"class ∈ the first `k` predictions" (any explicit vocabulary, ragged rankings, any `k_list`) -/
+
+/-- which `k` are reported: exactly the positive members of `k_list` … -/
+theorem C07_classification_topk_ks (kList : List Int) (k : Nat) :
+    k ∈ ksOf kList ↔ 0 < k ∧ (k : Int) ∈ kList := mem_ksOf kList k
+
+/-- … each once, in increasing order (so position `j` is `k_list[j]` only for a strictly increasing
+positive `k_list`: finding FC4) -/
+theorem C07_classification_topk_ks_sorted (kList : List Int) : (ksOf kList).Pairwise (· < ·) :=
+  ksOf_sorted kList
+
+/-- a cell of the prediction row at `k`: class id `i` is predicted iff one of the first `k`
+predictions of the example (all of them if it has fewer) carries that class id -/
+theorem C07_classification_topk_cell (v : Vocab) (r : List Label) (k i : Nat) (hi : i < v.length) :
+    (markV v (r.take k)).getD i false = (r.take k).any fun e => v.idx e == some i :=
+  markV_getD v _ i hi
+
+/-- **micro**: entry `j` of `tp` / `tn` / `fp` / `fn` is the textbook count over all
+(example, class) cells, with "predicted" read off the first `ks[j]` predictions -/
+theorem C07_classification_topk_counts_micro (c : Cfg) (v : Vocab) (hne : v ≠ [])
+    (hk : c.kind = .topk) (hi : c.input = some .multioutput) (hv : c.vocab = some v)
+    (ha : c.average = .micro) (hks : ksOf c.kList ≠ []) (xs : List (List Label × List Label))
+    (hx : ∀ x ∈ xs, (∀ e ∈ x.1, v.Has e) ∧ (∀ e ∈ x.2, v.Has e)) :
+    let cells := fun (k : Nat) => xs.flatMap fun x => rowCells (markV v x.1) (markV v (x.2.take k))
+    batchCM c (moBatch xs) = .ok
+      { tp := .v ((ksOf c.kList).map fun k => (tpOf (cells k) : Int)),
+        tn := .v ((ksOf c.kList).map fun k => (tnOf (cells k) : Int)),
+        fp := .v ((ksOf c.kList).map fun k => (fpOf (cells k) : Int)),
+        fn := .v ((ksOf c.kList).map fun k => (fnOf (cells k) : Int)) } := by
+  intro cells
+  have h := topkCM_closed_mo v hne .micro (by decide) none rfl (Or.inl rfl) c.kList hks [] xs hx
+  simp only [batchCM, hk, hi, hv, ha]
+  rw [← moBatchO_nil, h]
+  have e : ∀ k, denseCM none v.length (xs.map (encTopKmo v k)) =
+      { tp := .s (tpOf (cells k)), tn := .s (tnOf (cells k)), fp := .s (fpOf (cells k)),
+        fn := .s (fnOf (cells k)) } := by
+    intro k
+    rw [C07_classification_counts_micro _ _ (by
+      intro x hx'; obtain ⟨y, _, rfl⟩ := List.mem_map.mp hx'; simp [encTopKmo])]
+    simp only [cells, List.flatMap_map, encTopKmo]
+  simp only [topkD, stackK, List.map_map, Function.comp_def, e, Arr.toS]
+
+/-- **macro**: entry `(j, i)` is the textbook count over the cells of class id `i` (one cell per
+example), with "predicted" read off the first `ks[j]` predictions -/
+theorem C07_classification_topk_counts_macro (c : Cfg) (v : Vocab) (hne : v ≠ [])
+    (hk : c.kind = .topk) (hi : c.input = some .multioutput) (hv : c.vocab = some v)
+    (ha : c.average = .macro) (hks : ksOf c.kList ≠ []) (xs : List (List Label × List Label))
+    (hx : ∀ x ∈ xs, (∀ e ∈ x.1, v.Has e) ∧ (∀ e ∈ x.2, v.Has e)) :
+    let cells := fun (k i : Nat) => xs.map fun x =>
+      (⟨(markV v x.1).getD i false, (markV v (x.2.take k)).getD i false⟩ : Cell)
+    batchCM c (moBatch xs) = .ok
+      { tp := .m ((ksOf c.kList).map fun k => (List.range v.length).map fun i => (tpOf (cells k i) : Int)),
+        tn := .m ((ksOf c.kList).map fun k => (List.range v.length).map fun i => (tnOf (cells k i) : Int)),
+        fp := .m ((ksOf c.kList).map fun k => (List.range v.length).map fun i => (fpOf (cells k i) : Int)),
+        fn := .m ((ksOf c.kList).map fun k => (List.range v.length).map fun i => (fnOf (cells k i) : Int)) } := by
+  intro cells
+  have h := topkCM_closed_mo v hne .macro (by decide) (some 0) rfl (Or.inr rfl) c.kList hks [] xs hx
+  simp only [batchCM, hk, hi, hv, ha]
+  rw [← moBatchO_nil, h]
+  have e : ∀ k, denseCM (some 0) v.length (xs.map (encTopKmo v k)) =
+      { tp := .v ((List.range v.length).map fun i => (tpOf (cells k i) : Int)),
+        tn := .v ((List.range v.length).map fun i => (tnOf (cells k i) : Int)),
+        fp := .v ((List.range v.length).map fun i => (fpOf (cells k i) : Int)),
+        fn := .v ((List.range v.length).map fun i => (fnOf (cells k i) : Int)) } := by
+    intro k
+    rw [C07_classification_counts_macro _ _ (by
+      intro x hx'; obtain ⟨y, _, rfl⟩ := List.mem_map.mp hx'; simp [encTopKmo])]
+    simp only [C07_classification_class_cells]
+    simp only [cells, List.map_map, Function.comp_def, encTopKmo]
+  simp only [topkD, stackK, List.map_map, Function.comp_def, e, Arr.toV]
+
+/-- non-vacuity of the hypotheses (permuted vocabulary, `k_list = [3, 1, 3, 0]`, a ranking shorter
+than 3), and the value by evaluation -/
+example :
+    let c : Cfg := { kind := .topk, metrics := [.PRECISION], single := false, posLabel := 1,
+                     input := some .multioutput, average := .micro,
+                     vocab := some [(7, 2), (8, 0), (9, 1)], kList := [3, 1, 3, 0] }
+    ksOf c.kList = [1, 3] ∧
+    batchCM c (moBatch [([7], [8, 7]), ([9, 7], [9, 8, 7])])
+      = .ok { tp := .v [1, 3], tn := .v [2, 1], fp := .v [1, 2], fn := .v [2, 0] } := by
+  exact ⟨rfl, rfl⟩
 
 end topk
 
